@@ -21,6 +21,7 @@ created (no quantifiers) and are cross-checked against CPython by `check_pathlib
     A8  join(prefix(a, i), P(parts(a)[i])) == prefix(a, i + 1)
     A9  is_abs(a)  <=>  len(parts(a)) > 0 and parts(a)[0] starts with '/'
     A10 join(parent(a), P(name(a))) == a   unless name(a) == ''
+    A11 name(P(s)) == s for a single component s (no '/', not '' or '.'); suffix(a) == pathlib_suffix_of_name(name(a))
 
 `Path.cwd()` reads the ghost `cwd` (interp.st.ghost['cwd']) at the time of the call; `os.chdir`
 sets it.  Everything here is native Python when executed outside the verifier (replays)."""
@@ -264,7 +265,23 @@ def mk_parent(interp, a):
 
 def mk_name(interp, a):
     mk_parent(interp, a)
-    return SStr(_name()(_term(a)))
+    ta = _term(a)
+    nm = _name()(ta)
+    # A11: the name of P(s) is s when s is a single component (no '/', not '' and not '.')
+    if z3.is_app(ta) and ta.decl().name() == 'path.P' and _once(interp, 'name-of-P', ta):
+        st = ta.arg(0)
+        interp.st.assume(z3.Implies(z3.And(z3.Not(z3.Contains(st, z3.StringVal('/'))), st != z3.StringVal(''),
+                                           st != z3.StringVal('.')), nm == st))
+    return SStr(nm)
+
+
+def pathlib_suffix_of_name(name):
+    """pathlib's PurePath.suffix as a function of the final component (cross-checked against CPython): the part from
+    the last dot, unless that dot is the first or the last character of the name"""
+    i = name.rfind('.')
+    if 0 < i < len(name) - 1:
+        return name[i:]
+    return ''
 
 
 def pid_of(interp, x):
@@ -398,11 +415,15 @@ def _name_attr(interp, o):
     return mk_name(interp, interp.getattr(o, 'pid'))
 
 
+def _suffix_attr(interp, o):
+    return interp.call(pathlib_suffix_of_name, [mk_name(interp, interp.getattr(o, 'pid'))], {})
+
+
 class PurePathI(Interface):
     """pathlib.PurePosixPath seen through its denotation `pid`"""
     target_class = pathlib.PurePosixPath
     attrs = {'pid': Int}
-    computed = {'parts': _parts_attr, 'parent': _parent_attr, 'name': _name_attr}
+    computed = {'parts': _parts_attr, 'parent': _parent_attr, 'name': _name_attr, 'suffix': _suffix_attr}
     methods = {
         '__truediv__': Method(model=_div),
         '__rtruediv__': Method(model=_rdiv),
@@ -626,6 +647,8 @@ def check_pathlib_axioms(ctx, max_len=4):
             bad['A9'].append(s)
         if p.name != '' and p.parent / PP(p.name) != p:
             bad['A10'].append(s)
+    bad['A11'] = [x for x in strs if '/' not in x and x not in ('', '.')
+                  and (PP(x).name != x or PP(x).suffix != pathlib_suffix_of_name(x))]
     # L1 (used in the argument "nothing is created outside the populated directory", not in a proof): a relative
     # path without a '..' component, joined to d, lies under d
     bad['L1'] = []
